@@ -290,6 +290,37 @@ func (s *Session) wait(cond func() bool, stuck func(fp string)) bool {
 	return false
 }
 
+// waitDep waits for a condition that only depends on another harness
+// goroutine's progress (which has its own deciding wait). It never declares a
+// violation; a very long watchdog makes the session inconclusive.
+func (s *Session) waitDep(cond func() bool) bool {
+	start := time.Now()
+	for {
+		s.mu.Lock()
+		if s.failed {
+			s.mu.Unlock()
+			return false
+		}
+		if cond() {
+			s.mu.Unlock()
+			return true
+		}
+		ch := s.changed
+		if time.Since(start) > 150*time.Second {
+			s.Inconc = append(s.Inconc, "watchdog in a dependent wait")
+			s.failed = true
+			s.bump()
+			s.mu.Unlock()
+			return false
+		}
+		s.mu.Unlock()
+		select {
+		case <-ch:
+		case <-time.After(time.Second):
+		}
+	}
+}
+
 func newEndpoint(s *Session, idx int) *endpoint {
 	e := &endpoint{s: s, idx: idx, ctlWake: make(chan struct{}, 1),
 		iws: 65535, mfs: 16384, peerIWS: 65535, peerMFS: 16384,
